@@ -60,8 +60,13 @@ impl Parser for GoModParser {
                 continue;
             }
 
-            // Check for block end
-            if in_require_block && trimmed == ")" {
+            // Check for block end (the closing parenthesis may carry a trailing comment)
+            if in_require_block
+                && trimmed.strip_prefix(')').is_some_and(|rest| {
+                    let rest = rest.trim_start();
+                    rest.is_empty() || rest.starts_with("//")
+                })
+            {
                 in_require_block = false;
                 continue;
             }
